@@ -1,3 +1,4 @@
+import BigtoolsModel.Generated.Consts
 /-! Probe (C16): `compat_arg_mut` as a table-driven rewriting function over code points; the UCSC spellings
     named in the property rewrite to the native flags and native arguments are left alone (kernel-decided
     against the table, which the extractor regenerates from `cli.rs`). -/
@@ -21,9 +22,9 @@ inductive Res where
   | panic
 deriving DecidableEq, Repr
 
-def REPLACE : List (List Nat × List Nat) := [([45,97,100,106,117,115,116], [45,45,97,100,106,117,115,116]), ([45,97,115], [45,45,97,117,116,111,115,113,108]), ([45,98,101,100], [45,45,111,118,101,114,108,97,112,45,98,101,100]), ([45,98,108,111,99,107,83,105,122,101], [45,45,98,108,111,99,107,45,115,105,122,101]), ([45,99,104,114,111,109], [45,45,99,104,114,111,109]), ([45,99,104,114,111,109,115], [45,45,99,104,114,111,109,115]), ([45,99,108,105,112], [45,45,99,108,105,112]), ([45,101,110,100], [45,45,101,110,100]), ([45,105,116,101,109,115,80,101,114,83,108,111,116], [45,45,105,116,101,109,115,45,112,101,114,45,115,108,111,116]), ([45,109,105,110,77,97,120], [45,45,109,105,110,109,97,120]), ([45,115,116,97,114,116], [45,45,115,116,97,114,116]), ([45,116,104,114,101,115,104,111,108,100], [45,45,116,104,114,101,115,104,111,108,100]), ([45,117,110,99], [45,45,117,110,99,111,109,112,114,101,115,115,101,100]), ([45,122,111,111,109,115], [45,45,122,111,111,109,115])]
-def IGNORE : List (List Nat) := [[45,105,110,76,105,115,116], [45,116,97,98]]
-def UNIMPLEMENTED : List (List Nat) := [[45,97,108,108,111,119,49,98,79,118,101,114,108,97,112], [45,98,101,100,79,117,116], [45,101,120,116,114,97,73,110,100,101,120], [45,104,101,97,100,101,114], [45,109,97,120], [45,109,97,120,73,116,101,109,115], [45,109,105,110,77,97,120], [45,115,97,109,112,108,101,65,114,111,117,110,100,67,101,110,116,101,114], [45,115,105,122,101,115,73,115,50,66,105,116], [45,115,105,122,101,115,73,115,67,104,114,111,109,65,108,105,97,115,66,98], [45,115,105,122,101,115,73,115,66,98], [45,115,116,97,116,115], [45,116,121,112,101], [45,117,100,99,68,105,114]]
+def REPLACE : List (List Nat × List Nat) := Gen.COMPAT_REPLACE
+def IGNORE : List (List Nat) := Gen.COMPAT_IGNORE
+def UNIMPLEMENTED : List (List Nat) := Gen.COMPAT_UNIMPLEMENTED
 
 /-- the `match` of `compat_replace_mut!`: first arm whose prefix matches wins -/
 def compatArg (a : List Nat) : Res :=
